@@ -11,6 +11,11 @@ Proved here, for every staging reachable by any history of builder calls (`Stagi
 unbounded) and every staging value at all where no invariant is needed:
 
 * `build_no_panic` — `build` never panics (every `unwrap` left in the code is unreachable);
+* `build_accepts_iff` — `build` accepts a staging exactly when none of the documented defects is
+  present (bad datum hash length / undecodable inline datum or native script in an output or the
+  collateral return, network id above 1, undecodable witness script or datum, a redeemer without
+  execution units, with an undecodable payload or without its target), so the theorems about
+  accepted builds are about every staging free of those defects;
 * `build_inputs_canonical` — the input field is the staged inputs as a *set* in the ledger's
   order (strictly ascending by (transaction id, index), same members);
 * `build_redeemers_point_at_targets` — there is exactly one built redeemer per staged redeemer,
@@ -487,6 +492,209 @@ theorem build_id_is_hash_of_body_span {Bs Hs Body Tx : Type} (H : Bs → Hs) (en
     (b : Built Bs Hs) (hb : b = { txBytes := encTx t, txHash := H (encBody (bodyOf t)) }) :
     b.txHash = H (bodySpan b.txBytes) := by
   subst hb; simp [hspan]
+
+/-! ## when is a staging accepted -/
+
+/-- an output `build_babbage_raw` refuses: datum hash of the wrong length, undecodable inline
+    datum, undecodable native script reference -/
+def OutputBad (o : Output) : Prop :=
+  (∃ b, o.datum = some (.hash b) ∧ b.length ≠ 32) ∨ (∃ d, o.datum = some (.inline d) ∧ d.ok = false) ∨
+  (∃ sc, o.script = some sc ∧ sc.kind = 0 ∧ sc.body.ok = false)
+
+/-- a redeemer the loop refuses: no execution units, undecodable payload, or a target that is not
+    among the (deduplicated) inputs / the policies with a non-zero mint -/
+def RedeemerBad (inputs : List Inp) (policies : List Hash) (p : Purpose) (r : Redeemer) : Prop :=
+  r.exUnits = none ∨ r.data.ok = false ∨
+  (match p with
+   | .spend i => i ∉ inputs
+   | .mint pid => pid ∉ policies)
+
+theorem failIf_ok (c : Bool) (e : Err) (u : Unit) : failIf c e = .ok u ↔ c = false := by
+  unfold failIf; cases c <;> simp
+
+theorem buildBabbageRaw_ok_iff (o : Output) : (∃ b, o.buildBabbageRaw = .ok b) ↔ ¬ OutputBad o := by
+  unfold Output.buildBabbageRaw OutputBad
+  simp only [bind_eq_ok]
+  constructor
+  · rintro ⟨b, _, h1, _, h2, _⟩
+    rintro (⟨bs, hd, hl⟩ | ⟨d, hd, hok⟩ | ⟨sc, hs, hk, hok⟩)
+    · rw [hd] at h1; simp only [failIf_ok, bne_eq_false_iff_eq] at h1; exact hl h1
+    · rw [hd] at h1; simp only [failIf_ok, hok] at h1; cases h1
+    · rw [hs] at h2; simp only [failIf_ok, hk, hok] at h2; cases h2
+  · intro hn
+    refine ⟨_, (), ?_, (), ?_, rfl⟩
+    · cases hd : o.datum with
+      | none => rfl
+      | some d =>
+        cases d with
+        | hash b =>
+          simp only [failIf_ok, bne_eq_false_iff_eq]
+          exact Classical.byContradiction (fun hl => hn (.inl ⟨b, hd, hl⟩))
+        | inline d =>
+          simp only [failIf_ok, Bool.not_eq_false']
+          cases hok : d.ok with
+          | true => rfl
+          | false => exact absurd (.inr (.inl ⟨d, hd, hok⟩)) hn
+    · cases hs : o.script with
+      | none => rfl
+      | some sc =>
+        simp only [failIf_ok, Bool.and_eq_false_imp, beq_iff_eq, Bool.not_eq_false']
+        intro hk
+        cases hok : sc.body.ok with
+        | true => rfl
+        | false => exact absurd (.inr (.inr ⟨sc, hs, hk, hok⟩)) hn
+
+theorem buildOutputs_ok_iff (l : List Output) : (∃ bs, buildOutputs l = .ok bs) ↔ ∀ o ∈ l, ¬ OutputBad o := by
+  induction l with
+  | nil => simp [buildOutputs]
+  | cons o t ih =>
+    unfold buildOutputs
+    simp only [bind_eq_ok, List.mem_cons, forall_eq_or_imp]
+    constructor
+    · rintro ⟨_, b, hb, bs, hbs, _⟩
+      exact ⟨(buildBabbageRaw_ok_iff o).mp ⟨b, hb⟩, ih.mp ⟨bs, hbs⟩⟩
+    · rintro ⟨ho, ht⟩
+      obtain ⟨b, hb⟩ := (buildBabbageRaw_ok_iff o).mpr ho
+      obtain ⟨bs, hbs⟩ := ih.mpr ht
+      exact ⟨_, b, hb, bs, hbs, rfl⟩
+
+theorem positionOf_ok_iff {α : Type} [DecidableEq α] (l : List α) (x : α) : (∃ k, positionOf l x = .ok k) ↔ x ∈ l := by
+  unfold positionOf
+  constructor
+  · rintro ⟨k, h⟩
+    split at h
+    · next k' hk =>
+      have := findIdx?_getElem? l x k' hk
+      exact List.mem_of_getElem? this
+    · cases h
+  · intro hm
+    have := findIdx?_isSome_of_mem l x hm
+    cases hf : l.findIdx? (fun y => decide (y = x)) with
+    | none => simp [hf] at this
+    | some k => exact ⟨k, rfl⟩
+
+theorem buildRedeemer_ok_iff (inputs : List Inp) (policies : List Hash) (p : Purpose) (r : Redeemer) :
+    (∃ b, buildRedeemer inputs policies p r = .ok b) ↔ ¬ RedeemerBad inputs policies p r := by
+  unfold buildRedeemer RedeemerBad
+  simp only [bind_eq_ok]
+  constructor
+  · rintro ⟨b, ex, hex, _, hd, hp⟩
+    rintro (hn | hn | hn)
+    · rw [hn] at hex; cases hex
+    · simp only [failIf_ok, hn] at hd; cases hd
+    · cases p with
+      | spend i =>
+        simp only [bind_eq_ok] at hp
+        obtain ⟨k, hk, _⟩ := hp
+        exact hn ((positionOf_ok_iff inputs i).mp ⟨k, hk⟩)
+      | mint pid =>
+        simp only [bind_eq_ok] at hp
+        obtain ⟨k, hk, _⟩ := hp
+        exact hn ((positionOf_ok_iff policies pid).mp ⟨k, hk⟩)
+  · intro hn
+    cases hex : r.exUnits with
+    | none => exact absurd (.inl hex) hn
+    | some ex =>
+      have hok : r.data.ok = true := by
+        cases h : r.data.ok with
+        | true => rfl
+        | false => exact absurd (.inr (.inl h)) hn
+      cases p with
+      | spend i =>
+        have hm : i ∈ inputs := Classical.byContradiction (fun h => hn (.inr (.inr h)))
+        obtain ⟨k, hk⟩ := (positionOf_ok_iff inputs i).mpr hm
+        exact ⟨_, ex, rfl, (), by simp [failIf_ok, hok], by simp only [bind_eq_ok]; exact ⟨k, hk, rfl⟩⟩
+      | mint pid =>
+        have hm : pid ∈ policies := Classical.byContradiction (fun h => hn (.inr (.inr h)))
+        obtain ⟨k, hk⟩ := (positionOf_ok_iff policies pid).mpr hm
+        exact ⟨_, ex, rfl, (), by simp [failIf_ok, hok], by simp only [bind_eq_ok]; exact ⟨k, hk, rfl⟩⟩
+
+theorem buildRedeemers_ok_iff (inputs : List Inp) (policies : List Hash) (l : List (Purpose × Redeemer)) :
+    (∃ bs, buildRedeemers inputs policies l = .ok bs) ↔ ∀ e ∈ l, ¬ RedeemerBad inputs policies e.1 e.2 := by
+  induction l with
+  | nil => simp [buildRedeemers]
+  | cons e t ih =>
+    obtain ⟨p, r⟩ := e
+    unfold buildRedeemers
+    simp only [bind_eq_ok, List.mem_cons, forall_eq_or_imp]
+    constructor
+    · rintro ⟨_, b, hb, bs, hbs, _⟩
+      exact ⟨(buildRedeemer_ok_iff inputs policies p r).mp ⟨b, hb⟩, ih.mp ⟨bs, hbs⟩⟩
+    · rintro ⟨ho, ht⟩
+      obtain ⟨b, hb⟩ := (buildRedeemer_ok_iff inputs policies p r).mpr ho
+      obtain ⟨bs, hbs⟩ := ih.mpr ht
+      exact ⟨_, b, hb, bs, hbs, rfl⟩
+
+/-- the reasons for which `build` refuses a staging -/
+def Refused (s : Staging) : Prop :=
+  (∃ o ∈ s.outputs, OutputBad o) ∨ (∃ n, s.networkId = some n ∧ n > 1) ∨ (∃ o, s.collOut = some o ∧ OutputBad o) ∨
+  (∃ e ∈ s.scripts, e.2.kind = 0 ∧ e.2.body.ok = false) ∨ (∃ e ∈ s.datums, e.2.ok = false) ∨
+  (∃ e ∈ s.redeemers, RedeemerBad (dedup (isort inpLe s.inputs))
+      ((nonZeroAssets (fun q => decide (q = 0)) s.mint).map (·.1)) e.1 e.2)
+
+/-- `build` accepts a staging exactly when none of the documented reasons for refusal holds: it
+    neither refuses without cause nor accepts a malformed staging (so the theorems about accepted
+    builds are not vacuous for any staging free of those defects). -/
+theorem build_accepts_iff (s : Staging) : (∃ tx, build s = .ok tx) ↔ ¬ Refused s := by
+  unfold build Refused
+  simp only [bind_eq_ok]
+  constructor
+  · rintro ⟨tx, outputs, ho, _, hnet, cr, hcr, _, hsc, _, hdt, rds, hrd, ds, hds, _⟩
+    rintro (⟨o, hm, hb⟩ | ⟨n, hn, hgt⟩ | ⟨o, hco, hb⟩ | ⟨e, hm, hk, hok⟩ | ⟨e, hm, hok⟩ | ⟨e, hm, hb⟩)
+    · exact (buildOutputs_ok_iff s.outputs).mp ⟨outputs, ho⟩ o hm hb
+    · rw [hn] at hnet; simp only [failIf_ok, decide_eq_false_iff_not] at hnet; exact hnet hgt
+    · rw [hco] at hcr
+      simp only [bind_eq_ok] at hcr
+      obtain ⟨b, hb', _⟩ := hcr
+      exact (buildBabbageRaw_ok_iff o).mp ⟨b, hb'⟩ hb
+    · simp only [failIf_ok, scriptsErr, List.any_eq_false] at hsc
+      have := hsc e hm
+      simp [hk, hok] at this
+    · simp only [failIf_ok, List.any_eq_false] at hdt
+      have := hdt e hm
+      simp [hok] at this
+    · exact (buildRedeemers_ok_iff _ _ s.redeemers).mp ⟨rds, hrd⟩ e hm hb
+  · intro hn
+    obtain ⟨outputs, ho⟩ := (buildOutputs_ok_iff s.outputs).mpr (fun o hm hb => hn (.inl ⟨o, hm, hb⟩))
+    have hnet : (match s.networkId with | some n => failIf (decide (n > 1)) .netId | none => Res.ok ()) = .ok () := by
+      cases hni : s.networkId with
+      | none => rfl
+      | some n =>
+        simp only [failIf_ok, decide_eq_false_iff_not]
+        intro hgt; exact hn (.inr (.inl ⟨n, hni, hgt⟩))
+    have hcr : ∃ cr, (match s.collOut with | some o => o.buildBabbageRaw.bind fun b => Res.ok (some b) | none => Res.ok none) = .ok cr := by
+      cases hco : s.collOut with
+      | none => exact ⟨none, rfl⟩
+      | some o =>
+        obtain ⟨b, hb⟩ := (buildBabbageRaw_ok_iff o).mpr (fun hb => hn (.inr (.inr (.inl ⟨o, hco, hb⟩))))
+        exact ⟨some b, by simp [bind_eq_ok, hb]⟩
+    obtain ⟨cr, hcr⟩ := hcr
+    have hsc : failIf (scriptsErr s.scripts) .script = .ok () := by
+      simp only [failIf_ok, scriptsErr, List.any_eq_false]
+      intro e hm
+      cases hok : e.2.body.ok with
+      | true => simp
+      | false =>
+        by_cases hk : e.2.kind = 0
+        · exact absurd (.inr (.inr (.inr (.inl ⟨e, hm, hk, hok⟩)))) hn
+        · simp [hk]
+    have hdt : failIf (s.datums.any (fun e => !e.2.ok)) .datum = .ok () := by
+      simp only [failIf_ok, List.any_eq_false]
+      intro e hm
+      cases hok : e.2.ok with
+      | true => simp
+      | false => exact absurd (.inr (.inr (.inr (.inr (.inl ⟨e, hm, hok⟩))))) hn
+    obtain ⟨rds, hrd⟩ := (buildRedeemers_ok_iff _ _ s.redeemers).mpr
+      (fun e hm hb => hn (.inr (.inr (.inr (.inr (.inr ⟨e, hm, hb⟩))))))
+    have hds : ∃ ds, witnessDatums (s.datums.map (fun e => e.2.bytes)) = .ok ds := by
+      cases hw : witnessDatums (s.datums.map (fun e => e.2.bytes)) with
+      | ok ds => exact ⟨ds, rfl⟩
+      | err e =>
+        unfold witnessDatums fromVec at hw
+        cases hd : s.datums.map (fun e => e.2.bytes) <;> simp [hd] at hw
+      | panic => exact absurd hw (witnessDatums_ne_panic _)
+    obtain ⟨ds, hds⟩ := hds
+    exact ⟨_, outputs, ho, (), hnet, cr, hcr, (), hsc, (), hdt, rds, hrd, ds, hds, rfl⟩
 
 /-! ## Non-vacuity -/
 section
